@@ -28,7 +28,7 @@ ascending (such a `Value` does not exist: `Map` is a `BTreeMap`).
 -/
 import TmVerif.Driver.Proto
 import TmVerif.Model.Load
--- import TmVerif.Model.Expand
+import TmVerif.Model.Expand
 
 namespace TmVerif.LoadCmd
 open TmVerif TmVerif.Proto
@@ -171,7 +171,8 @@ def handle (toks : List String) : Option String :=
       match serialize L with
       | some j => if load j = Outcome.ok L then "ok" else "viol"
       | none => "viol"
-  -- C13PLACEHOLDER
+  | ["C13", j] => (decJson j).map fun j => if load j = Expand.loadSpec j then "ok" else "viol"
+  | ["C13X", j] => (decJson j).map fun j => showOutcome (Expand.loadSpec j)
   | _ => none
 
 end TmVerif.LoadCmd
